@@ -53,6 +53,8 @@ pub struct Inject {
     /// ordinal (1-based) of the syscall among those matching `path_filter` ... strace counts per
     /// syscall name per thread; see DESIGN section 2
     pub when: u64,
+    /// only syscalls touching these paths are traced/counted/injected (strace -P)
+    pub paths: Vec<PathBuf>,
 }
 
 #[derive(Clone, Debug)]
@@ -71,6 +73,8 @@ pub struct RunOpts {
     pub inject: Option<Inject>,
     /// record a syscall trace (strace -f -e trace=...) to this file
     pub trace: Option<(String, PathBuf)>,
+    /// restrict the trace to syscalls touching these paths
+    pub trace_paths: Vec<PathBuf>,
     pub timeout_s: u64,
     pub verbose: u8,
     /// binary to run instead of the default debug build (release-build passes)
@@ -79,7 +83,7 @@ pub struct RunOpts {
 
 impl RunOpts {
     pub fn new(coin: Coin, callback: Callback) -> RunOpts {
-        RunOpts { coin, start: None, end: None, verify: false, callback, threads: None, fsize: None, nofile: None, pin: false, inject: None, trace: None, timeout_s: std::env::var("VP_TIMEOUT").ok().and_then(|v| v.parse().ok()).unwrap_or(90), verbose: 0, bin: None }
+        RunOpts { coin, start: None, end: None, verify: false, callback, threads: None, fsize: None, nofile: None, pin: false, inject: None, trace: None, trace_paths: vec![], timeout_s: std::env::var("VP_TIMEOUT").ok().and_then(|v| v.parse().ok()).unwrap_or(90), verbose: 0, bin: None }
     }
 }
 
@@ -251,10 +255,16 @@ fn run_tool_once(datadir: &Path, dump: &Path, o: &RunOpts) -> Result<RunOut, Str
         let mut c = Command::new("strace");
         c.arg("-f").arg("-qq");
         if let Some(inj) = &o.inject {
+            for p in &inj.paths {
+                c.arg("-P").arg(p);
+            }
             c.arg("-e").arg(format!("trace={}", inj.syscall));
             c.arg("-e").arg(format!("inject={}:{}:when={}", inj.syscall, inj.action, inj.when));
             c.arg("-o").arg(io_dir.join("strace.log"));
         } else if let Some((what, path)) = &o.trace {
+            for p in &o.trace_paths {
+                c.arg("-P").arg(p);
+            }
             c.arg("-e").arg(format!("trace={}", what));
             c.arg("-o").arg(path);
         }
